@@ -1,4 +1,215 @@
 package main
 
-func thoroughExtras(prop string) (map[string]any, int) { return map[string]any{}, 0 }
-func cmdMutants(args []string) int                      { return 0 }
+// Two-way testing of the checker: overlay mutants (one instance broken per mutant, applied in
+// memory through packages.Config.Overlay; nothing is written into /repo and nothing is executed).
+// A mutant must type-check and must be reported by the expected rule at the expected construct.
+// Mutants never influence the verdict on the real tree.
+
+import (
+	"encoding/json"
+	"flag"
+	"fmt"
+	"os"
+	"os/exec"
+	"path/filepath"
+	"sort"
+	"strings"
+	"sync"
+)
+
+type Mutant struct {
+	ID        string `json:"id"`
+	Property  string `json:"property"`
+	File      string `json:"file"` // relative to the repository root
+	Old       string `json:"old"`  // must occur exactly once in File
+	New       string `json:"new"`
+	Rule      string `json:"rule"`      // rule expected to report it
+	Construct string `json:"construct"` // substring of the reported construct (optional)
+	Why       string `json:"why"`
+}
+
+type mutantOutcome struct {
+	ID       string `json:"id"`
+	Status   string `json:"status"` // caught | missed | skipped | invalid
+	Detail   string `json:"detail,omitempty"`
+	Reported string `json:"reported,omitempty"`
+}
+
+func loadMutants(prop string) []Mutant {
+	var out []Mutant
+	files, _ := filepath.Glob(filepath.Join(verifDir, "mutants", "*.json"))
+	sort.Strings(files)
+	for _, f := range files {
+		b, err := os.ReadFile(f)
+		if err != nil {
+			continue
+		}
+		var ms []Mutant
+		if err := json.Unmarshal(b, &ms); err != nil {
+			fmt.Fprintf(os.Stderr, "mutants: %s: %v\n", f, err)
+			continue
+		}
+		for _, m := range ms {
+			if prop == "" || m.Property == prop {
+				out = append(out, m)
+			}
+		}
+	}
+	return out
+}
+
+func runMutant(m Mutant) mutantOutcome {
+	path := filepath.Join(repoDir, m.File)
+	src, err := os.ReadFile(path)
+	if err != nil {
+		return mutantOutcome{m.ID, "skipped", "file not found: " + m.File, ""}
+	}
+	if n := strings.Count(string(src), m.Old); n != 1 {
+		return mutantOutcome{m.ID, "skipped", fmt.Sprintf("anchor occurs %d times (tree changed at the anchor)", n), ""}
+	}
+	mutated := strings.Replace(string(src), m.Old, m.New, 1)
+	ov, _ := json.Marshal(map[string]string{path: mutated})
+	tmp, err := os.CreateTemp(filepath.Join(verifDir, ".cache"), "ovl-*.json")
+	if err != nil {
+		return mutantOutcome{m.ID, "invalid", err.Error(), ""}
+	}
+	defer os.Remove(tmp.Name())
+	tmp.Write(ov)
+	tmp.Close()
+	exe, _ := os.Executable()
+	cmd := exec.Command(exe, "analyse", "-p", m.Property, "-overlay", tmp.Name())
+	cmd.Env = append(os.Environ(), "GOMAXPROCS=4")
+	outb, err := cmd.Output()
+	if err != nil {
+		msg := err.Error()
+		if ee, ok := err.(*exec.ExitError); ok {
+			msg = strings.TrimSpace(string(ee.Stderr))
+			if len(msg) > 300 {
+				msg = msg[:300]
+			}
+		}
+		return mutantOutcome{m.ID, "invalid", "mutant does not load/type-check: " + msg, ""}
+	}
+	var res Results
+	if err := json.Unmarshal(outb, &res); err != nil {
+		return mutantOutcome{m.ID, "invalid", "bad analyser output", ""}
+	}
+	pr := res.Props[m.Property]
+	if pr == nil {
+		return mutantOutcome{m.ID, "invalid", "no result for property", ""}
+	}
+	var others []string
+	for _, o := range pr.Obligations {
+		if o.Status != "violated" {
+			continue
+		}
+		if o.Rule == m.Rule && (m.Construct == "" || strings.Contains(o.Construct, m.Construct)) {
+			return mutantOutcome{m.ID, "caught", "", o.Key()}
+		}
+		others = append(others, o.Key())
+	}
+	if len(pr.Blind) > 0 {
+		return mutantOutcome{m.ID, "missed", "no verdict: " + strings.Join(pr.Blind, "; "), strings.Join(others, " ; ")}
+	}
+	return mutantOutcome{m.ID, "missed", "expected rule did not fire", strings.Join(others, " ; ")}
+}
+
+func runMutants(ms []Mutant, par int) []mutantOutcome {
+	out := make([]mutantOutcome, len(ms))
+	sem := make(chan struct{}, par)
+	var wg sync.WaitGroup
+	for i, m := range ms {
+		wg.Add(1)
+		sem <- struct{}{}
+		go func(i int, m Mutant) {
+			defer wg.Done()
+			defer func() { <-sem }()
+			out[i] = runMutant(m)
+		}(i, m)
+	}
+	wg.Wait()
+	return out
+}
+
+// thoroughExtras: mutant corpus of the property + alternative build configurations.
+func thoroughExtras(prop string) (map[string]any, int) {
+	info := map[string]any{}
+	ms := loadMutants(prop)
+	outs := runMutants(ms, 5)
+	counts := map[string]int{}
+	for _, o := range outs {
+		counts[o.Status]++
+		if o.Status != "caught" {
+			fmt.Printf("  mutant %-40s %s %s\n", o.ID, o.Status, o.Detail)
+		}
+	}
+	fmt.Printf("  checker self-test on overlay mutants: %d caught, %d missed, %d skipped, %d invalid (of %d)\n", counts["caught"], counts["missed"], counts["skipped"], counts["invalid"], len(ms))
+	info["mutants"] = outs
+	info["mutants_caught"] = counts["caught"]
+	info["mutants_total"] = len(ms)
+	// alternative build configurations: the property must hold there as well
+	code := 0
+	for _, cfg := range [][2]string{{"windows", "amd64"}, {"linux", "386"}} {
+		exe, _ := os.Executable()
+		cmd := exec.Command(exe, "analyse", "-p", prop, "-goos", cfg[0], "-goarch", cfg[1])
+		outb, err := cmd.Output()
+		label := cfg[0] + "/" + cfg[1]
+		if err != nil {
+			info["config_"+label] = "not loadable: " + err.Error()
+			fmt.Printf("  build configuration %s: not loadable (recorded, not gating)\n", label)
+			continue
+		}
+		var res Results
+		if json.Unmarshal(outb, &res) != nil || res.Props[prop] == nil {
+			continue
+		}
+		bad := 0
+		for _, o := range res.Props[prop].Obligations {
+			if o.Status == "violated" {
+				bad++
+				fmt.Printf("  [%s] %s: %s\n", label, o.Key(), o.Detail)
+			}
+		}
+		info["config_"+label] = fmt.Sprintf("%d obligations, %d violated", len(res.Props[prop].Obligations), bad)
+		fmt.Printf("  build configuration %s: %d obligations, %d violated\n", label, len(res.Props[prop].Obligations), bad)
+		if bad > 0 {
+			fmt.Printf("VIOLATION property=%s replay=%s\n", prop, filepath.Join(verifDir, "replay", prop, "config-"+cfg[0]+"-"+cfg[1]+".txt"))
+			os.MkdirAll(filepath.Join(verifDir, "replay", prop), 0o755)
+			os.WriteFile(filepath.Join(verifDir, "replay", prop, "config-"+cfg[0]+"-"+cfg[1]+".txt"), outb, 0o644)
+			code = 1
+		}
+	}
+	return info, code
+}
+
+func cmdMutants(args []string) int {
+	fs := flag.NewFlagSet("mutants", flag.ExitOnError)
+	prop := fs.String("p", "", "property (all if empty)")
+	only := fs.String("id", "", "only this mutant id")
+	par := fs.Int("j", 5, "parallel analyses")
+	fs.Parse(args)
+	os.MkdirAll(filepath.Join(verifDir, ".cache"), 0o755)
+	ms := loadMutants(*prop)
+	if *only != "" {
+		var f []Mutant
+		for _, m := range ms {
+			if m.ID == *only {
+				f = append(f, m)
+			}
+		}
+		ms = f
+	}
+	outs := runMutants(ms, *par)
+	bad := 0
+	for _, o := range outs {
+		fmt.Printf("%-8s %-44s %s %s\n", o.Status, o.ID, o.Detail, o.Reported)
+		if o.Status != "caught" {
+			bad++
+		}
+	}
+	fmt.Printf("%d mutants, %d not caught\n", len(outs), bad)
+	if bad > 0 {
+		return 1
+	}
+	return 0
+}
